@@ -662,6 +662,7 @@ def gnuext_part(chk, tools, n):
 # aggregate of the sized stream must survive at the end of a page, loads and stores.
 PAGEEND_SIG = 'return:reads-beyond-object'
 PAGEEND_WITNESS = 's{ n a3 bchar }'
+PAGEEND_WITNESSES = [PAGEEND_WITNESS, 's{ n a5 bchar }', 's{ n a9 bchar }']   # I32, I64, second eightbyte
 
 
 def pageend_run(tools, decls, mode):
@@ -680,13 +681,17 @@ def pageend_part(chk, tools, decls):
     w = G.parse_text(PAGEEND_WITNESS)
     chk.count('E ' + PAGEEND_WITNESS)
     for mode in ('-ei', '-eg'):
-        rc, st, err = pageend_run(tools, [w], mode)
-        if st.get(0) != 'ok':
-            what = ('a c2m function returning by value a 3-byte struct that ends a mapping reads beyond it and is killed (%s: %s, rc %d); '
-                    'gcc reads 3 bytes' % (mode, st.get(0, 'no output'), rc))
+        fails = []
+        for wt in PAGEEND_WITNESSES:
+            rc, st, err = pageend_run(tools, [G.parse_text(wt)], mode)
+            if st.get(0) != 'ok':
+                fails.append((wt, st.get(0, 'no output'), rc))
+        if fails:
+            what = ('a c2m function returning by value a struct of 3, 5 or 9 bytes that ends a mapping reads beyond it and is killed (%s: %s); '
+                    'gcc reads sizeof bytes' % (mode, '; '.join('%s: %s, rc %d' % f for f in fails)))
             chk.cov['return_reads_beyond_object'] = 'present on this tree (fixes/C08-10.patch): ' + what
             if any(sig == PAGEEND_SIG for sig, _ in chk.known):
-                chk.finding(PAGEEND_SIG, dict(kind='pageend', decl=PAGEEND_WITNESS, mode=mode, rc=rc), what)
+                chk.finding(PAGEEND_SIG, dict(kind='pageend', decl=fails[0][0], mode=mode, rc=fails[0][2]), what)
             else:
                 chk.log('NOTE (not reported, fixes/C08-10.patch pending): ' + what)
             return
